@@ -356,6 +356,54 @@ def generate(repo=None):
     def b(x):
         return 'true' if x else 'false'
 
+    # MPP / SPP entry points of the four classes: which decomposer, whether the target list is reversed first, what the callback does
+    prodrows = []
+    FWD_CB = {'tableau': 'do_gate', 'frame': 'safe_do_instruction'}
+    for cls, tag, src_, prefix in [('TableauSimulator<W>', 'tableau', tab, 'do_'), ('FrameSimulator<W>', 'frame', frame, 'do_'),
+                                   ('SparseUnsignedRevFrameTracker', 'tracker', rev, 'undo_'), ('ErrorAnalyzer', 'analyzer', ea, 'undo_')]:
+        for g in (['MPP', 'SPP', 'SPP_DAG'] if prefix == 'do_' else ['MPP', 'SPP']):
+            nm = prefix + g
+            try:
+                got = list(cxx.function_bodies(src_, r'void %s::%s\(const CircuitInstruction &(\w+)\)\s*\{' % (re.escape(cls), nm)))
+                if len(got) != 1:
+                    raise cxx.Refuse('definition not found')
+                v = got[0][0].group(1)
+                body = norm(got[0][1])
+                dec = 'decompose_mpp_operation' if g == 'MPP' else 'decompose_spp_or_spp_dag_operation'
+                if prefix == 'do_':
+                    nq = 'inv_state.num_qubits' if tag == 'tableau' else 'num_qubits'
+                    extra = '' if g == 'MPP' else ' false,'
+                    want = '%s(%s, %s,%s [&](const CircuitInstruction &inst) { %s(inst); });' % (dec, v, nq, extra, FWD_CB[tag])
+                    if body != want:
+                        raise cxx.Refuse('shape not recognised: ' + body[:160])
+                    prodrows.append((tag, nm, dec, False, FWD_CB[tag], ''))
+                else:
+                    pre = ('size_t n = inst.targets.size(); std::vector<GateTarget> reversed_targets(n); std::vector<GateTarget> reversed_measure_targets; '
+                           'for (size_t k = 0; k < n; k++) { reversed_targets[k] = inst.targets[n - k - 1]; } ')
+                    if not body.startswith(pre):
+                        raise cxx.Refuse('target list is not reversed first: ' + body[:120])
+                    rest = body[len(pre):]
+                    nq = 'xs.size()' if tag == 'tracker' else 'tracker.xs.size()'
+                    m = re.fullmatch(r'%s\( CircuitInstruction\{(?:inst\.gate_type|GateType::%s), inst\.args, reversed_targets, inst\.tag\}, %s,%s \[&\]\(const CircuitInstruction &(\w+)\) \{ (.*) \}\);'
+                                     % (dec, g, re.escape(nq), '' if g == 'MPP' else ' false,'), rest)
+                    if not m:
+                        raise cxx.Refuse('decomposer call not recognised: ' + rest[:200])
+                    sv, cb = m.group(1), m.group(2)
+                    if g == 'MPP':
+                        mz = 'undo_MZ' if tag == 'tracker' else 'undo_MZ_with_context'
+                        mm = re.fullmatch(r'if \(%s\.gate_type == GateType::M\) \{ reversed_measure_targets\.clear\(\); for \(size_t k = %s\.targets\.size\(\); k--;\) \{ '
+                                          r'reversed_measure_targets\.push_back\(%s\.targets\[k\]\); \} (\w+)\( ?(?:CircuitInstruction)?\{GateType::M, %s\.args, reversed_measure_targets, %s\.tag\}(?:, "[^"]*")?\); \} '
+                                          r'else \{ undo_gate\(%s\); \}' % (sv, sv, sv, sv, sv, sv), cb)
+                        if not mm or mm.group(1) != mz:
+                            raise cxx.Refuse('callback not recognised: ' + cb[:200])
+                        prodrows.append((tag, nm, dec, True, 'undo_gate', mz))
+                    else:
+                        if cb != 'undo_gate(%s);' % sv:
+                            raise cxx.Refuse('callback not recognised: ' + cb[:120])
+                        prodrows.append((tag, nm, dec, True, 'undo_gate', ''))
+            except cxx.Refuse as e:
+                refused.append((tag + ':' + nm, str(e)))
+
     out = ['(* GENERATED by vlib/gen_tabmeas.py from %s, %s, %s, %s of the working tree. *)' % (TAB, FRAME, REV, EA),
            'From Coq Require Import List String Bool.', 'Import ListNotations.', 'Local Open Scope string_scope.',
            '(* linear form over (sx, sz, c, f): xs.signs[q], zs.signs[q], the content constant of eval_y_obs(q).sign = sx+sz+c, inverted-result flag *)',
@@ -375,6 +423,9 @@ def generate(repo=None):
                for tag, nm, s in segs),
            'Definition pairseg_of : list (string * string * string) := [%s].' % '; '.join('(%s, %s, %s)' % (q(a), q(b), q(c)) for a, b, c in seg_of),
            'Definition meas_dispatch : list (string * string * string) := [%s].' % ';\n  '.join('(%s, %s, %s)' % (q(a), q(b), q(c)) for a, b, c in disp),
+           '(* class, routine, decomposer, target list reversed first, callback for the emitted gates, routine for the emitted M with its targets reversed *)',
+           'Definition product_entries : list (string * string * string * bool * string * string) := [%s].' % ';\n  '.join(
+               '(%s, %s, %s, %s, %s, %s)' % (q(a), q(b), q(c), 'true' if d else 'false', q(e), q(f)) for a, b, c, d, e, f in prodrows),
            'Definition analyzer_forwards : list (string * string) := [%s].' % '; '.join('(%s, %s)' % (q(a), q(b)) for a, b in fwd),
            '(* reserve_noisy_space_for_results: default probability, argument index, first row offset from stored, rows past stored+count;',
            '   xor_record_reserved_result and record_result: xors, assigns, masks, stored increment, unwritten increment, rows reserved;',
